@@ -122,6 +122,17 @@ func scanRedArg(c *core.Ctx) []ob {
 				continue
 			}
 			rc := &redCtx{info: info, fd: fd, params: map[types.Object]bool{}, defs: map[types.Object][]ast.Expr{}}
+			// an unexported element-wise combiner (`func addSample(a, b, c uint64) uint64`, the named form of the literals
+			// handed to the samplers' read loops) receives coefficients and samples, not user scalars
+			combiner := !fd.Name.IsExported() && fd.Recv == nil && fd.Type.Results != nil && len(fd.Type.Results.List) == 1
+			for _, fl := range fd.Type.Params.List {
+				if !isUint64(info.TypeOf(fl.Type)) {
+					combiner = false
+				}
+			}
+			if combiner && fd.Type.Params.NumFields() >= 2 {
+				continue
+			}
 			for _, fl := range fd.Type.Params.List {
 				for _, nm := range fl.Names {
 					rc.params[info.Defs[nm]] = true
